@@ -49,6 +49,9 @@ def databases(tier, tables=('t1', 't2', 't3'), schema=None, cand=None):
         {t: list(cand[t][1:4]) for t in tables},
         {t: list(cand[t][3:]) for t in tables},
         {t: list(cand[t][::2]) for t in tables},
+        # whole rows duplicated in one table only (multiplicities differ between the operands of a set operation / join)
+        {t: (list(cand[t][:3]) + list(cand[t][:2]) if i == 0 else list(cand[t][:3])) for i, t in enumerate(tables)},
+        {t: (list(cand[t][:3]) if i == 0 else list(cand[t][:3]) + list(cand[t][:3])) for i, t in enumerate(tables)},
     ]
     out.extend(big)
     return out
